@@ -14,7 +14,7 @@ import runner  # noqa: E402
 
 PROP_FILE = "Props/C15.v"
 THEOREMS = ["C15_pickler_init_scoped", "C15_noninterference", "C15_later_pickler_view", "C15_partial_roundtrip",
-            "C15_pickler_name_normalisation", "C15_scope_structure"]
+            "C15_pickler_name_normalisation", "C15_scope_structure", "C15_reducers_travel_with_the_queue"]
 ASSUME = [
     "pickle / cloudpickle consult the instance dispatch table as documented (oracle); their own fidelity is not modelled",
     "tables are modelled as heap objects keyed by abstract type ids; dict(x) / x.copy() allocate a new object, plain use aliases",
